@@ -36,6 +36,9 @@ type C04Case struct {
 	Noise  bool            `json:"noise,omitempty"`
 	// Rotate: the storage rolls the response-signing key over after the noise round (or a first metadata fetch).
 	Rotate bool `json:"rotate_key,omitempty"`
+	// ViaAPI: the response is obtained through the exported Provider.AuthCallbackResponse (applications with their own login
+	// UI), not through the callback endpoint
+	ViaAPI bool `json:"via_api,omitempty"`
 }
 
 // c04Tame switches the string generators of a case to characters that need no escaping.
@@ -163,6 +166,7 @@ func genC04Case(t *rapid.T) C04Case {
 	c.Spec = spec
 	c.Noise = rapid.IntRange(0, 2).Draw(t, "noise") == 0
 	c.Rotate = rapid.IntRange(0, 3).Draw(t, "rotate") == 0
+	c.ViaAPI = (c.Kind == "post" || c.Kind == "redirect") && rapid.IntRange(0, 3).Draw(t, "viaapi") == 0
 	switch rapid.IntRange(0, 11).Draw(t, "big") {
 	case 0:
 		c.Spec.Users[0].Custom = append(c.Spec.Users[0].Custom, world.CustomAttr{Name: "groups-big", Values: bigValues(rapid.SampledFrom([]int{150, 400}).Draw(t, "nbig"), "c04")})
@@ -302,6 +306,7 @@ func c04Run(c C04Case, stats map[string]int) (vs []*ev.Violation, signedStrings 
 		return
 	}
 	var rep obs.Reply
+	usedID := ""
 	switch c.Kind {
 	case "attrquery":
 		x := xt.Write(spsim.Envelope(c.Query.Rendered(time.Now()).QueryTree(plainStyle), "soap"), plainStyle.W)
@@ -325,7 +330,12 @@ func c04Run(c C04Case, stats map[string]int) (vs []*ev.Violation, signedStrings 
 			id = okCalls[0].Args[len(okCalls[0].Args)-1]
 			w.Store.CompleteLogin(id, c.Spec.Users[0].UserID)
 		}
-		rep = obs.Do(w.Handler, obs.HTTPReq{Method: "GET", Path: c.Spec.IdP.Route("callback"), RawQuery: "id=" + qesc(id), Host: c.Host})
+		usedID = id
+		if c.ViaAPI {
+			rep = apiCallback(w, c.Host, id)
+		} else {
+			rep = obs.Do(w.Handler, obs.HTTPReq{Method: "GET", Path: c.Spec.IdP.Route("callback"), RawQuery: "id=" + qesc(id), Host: c.Host})
+		}
 	}
 	if rep.Panic != "" {
 		add(ev.V("C04/panic", "handler panicked: %s", short(rep.Panic, 100)))
@@ -395,6 +405,15 @@ func c04Run(c C04Case, stats map[string]int) (vs []*ev.Violation, signedStrings 
 			add(c04StraySignature("failure reply after a Success reply", obs.Decode(rep2), mdCert))
 		}
 		return
+	}
+	if c.ViaAPI {
+		if st := w.Store.Request(usedID); usedID != "" && st != nil && st.S.Binding == world.BindRedirect && st.S.ACS != "" {
+			// redirect delivery is the caller's job: the library hands the signature over in the Response value
+			if rep.Header.Get("X-Api-Signature") == "" || rep.Header.Get("X-Api-SigAlg") == "" {
+				add(ev.V("C04/unsigned:api-redirect", "Provider.AuthCallbackResponse returned a Success response for redirect delivery without Signature / SigAlg (%q, %q)", rep.Header.Get("X-Api-Signature"), rep.Header.Get("X-Api-SigAlg")))
+			}
+			return
+		}
 	}
 	// enveloped signature on the assertion
 	add(verifyEnvelopedOnWire("assertion/"+c.Kind, d.XML, a.Node, mdCert, stats))
